@@ -89,6 +89,9 @@ func (m *Replicas) Genesis(w *engine.World, n *engine.Node, gs simapp.GenesisSta
 	cdc.MustUnmarshalJSON(gs[htlctypes.ModuleName], &hg)
 	hg.PreviousBlockTime = time.Time{}
 	gs[htlctypes.ModuleName] = cdc.MustMarshalJSON(&hg)
+	if hm, ok := w.Mod("htlc").(interface{ SetGenesisPrevTime(time.Time) }); ok {
+		hm.SetGenesisPrevTime(time.Time{})
+	}
 	w.Hit("C11.genesis_without_htlc_prev_time")
 }
 
